@@ -122,6 +122,7 @@ type SeqScn struct {
 	Direct  *HandleScn     `json:"direct,omitempty"` // C05/C06: direct concurrent drive of the handle table instead of a request history
 	Race    *AttrRaceScn   `json:"race,omitempty"`   // C11: concurrent SETATTR requests for one object instead of a request history
 	CRace   *CreateRaceScn `json:"crace,omitempty"`  // C03: concurrent CREATE requests for one name instead of a request history
+	Acc     *AccessRaceScn `json:"acc,omitempty"`    // C12: ACCESS after an acknowledged chmod while older look-ups of the object are in flight
 	Conc    *C29Scn        `json:"conc,omitempty"`   // C02/C04/C07/C26: a concurrent phase (C29's workload, caches on) followed by a fresh client's look at every name
 	Sched   SchedCfg       `json:"sched"`
 	Segment bool           `json:"segment,omitempty"`
